@@ -228,8 +228,17 @@ func (fr *frame) exec(instr ssa.Instruction, st *State) {
 		if !ok {
 			panic(unsupported("range over non-string"))
 		}
-		fr.vals[x] = RangeV{S: sv, Cell: s.fresh("rangepos", SInt)}
-		panic(unsupported("range over string (use the AST evaluator)"))
+		// the iterator is a hidden cell holding the byte offset of the next element
+		a := s.fresh("rangeiter", SInt)
+		s.assert(and(app(">", a, "1"), eq(app("birth", a), st.now)))
+		st.now = add1(st.now)
+		st.heap[rangeLeaf] = store(fx.heapLeaf(st, rangeLeaf, SInt), a, "0")
+		fr.vals[x] = RangeV{S: sv, Cell: a}
+	case *ssa.Next:
+		if !x.IsString {
+			panic(unsupported("range over a map"))
+		}
+		fr.vals[x] = fr.nextRune(fr.val(x.Iter).(RangeV), st)
 	default:
 		panic(unsupported(fmt.Sprintf("instruction %T: %s", instr, instr.String())))
 	}
@@ -247,6 +256,58 @@ type ElemRefV struct {
 type RangeV struct {
 	S    StrV
 	Cell string
+}
+
+const rangeLeaf = "rangeiter.pos"
+
+// utf8Funs declares the uninterpreted encoding functions utf8len(r), utf8byte(r, k) with the facts the
+// contracts rely on (length by range of the code point; bytes of a multi-byte encoding are >= 0x80;
+// an ASCII code point is its own single byte; U+FFFD takes three bytes).
+func (fx *fnExec) utf8Funs() (string, string) {
+	s := fx.s
+	_, had := s.declared[sym("utf8len")]
+	ln := s.declFun("utf8len", []Sort{SInt}, SInt)
+	by := s.declFun("utf8byte", []Sort{SInt, SInt}, SInt)
+	if !had {
+		s.assert("(forall ((r Int)) (! (= (utf8len r) (ite (< r 128) 1 (ite (< r 2048) 2 (ite (< r 65536) 3 4)))) :pattern ((utf8len r))))")
+		s.assert("(forall ((r Int) (k Int)) (! (=> (and (>= r 128) (<= 0 k) (< k (utf8len r))) (and (<= 128 (utf8byte r k)) (<= (utf8byte r k) 255))) :pattern ((utf8byte r k))))")
+		s.assert("(forall ((r Int)) (! (=> (and (<= 0 r) (< r 128)) (= (utf8byte r 0) r)) :pattern ((utf8byte r 0))))")
+		s.usesQuant = true
+	}
+	return ln, by
+}
+
+// nextRune: one step of `for i, r := range s`. A byte below 0x80 is its own rune; otherwise either
+// the bytes at the position are the (shortest-form, non-surrogate) UTF-8 encoding of a rune >= 0x80,
+// or they are not a valid encoding and the step yields U+FFFD for that single byte.
+func (fr *frame) nextRune(it RangeV, st *State) Val {
+	fx := fr.fx
+	s := fx.s
+	ln, by := fx.utf8Funs()
+	arr := fx.heapLeaf(st, rangeLeaf, SInt)
+	i := s.define("rangepos", SInt, sel(arr, it.Cell))
+	ok := s.define("rangeok", SBool, app("<", i, it.S.Len))
+	r := s.fresh("rune", SInt)
+	w := s.fresh("runew", SInt)
+	b0 := sel(it.S.Arr, add(it.S.Off, i))
+	// the same uninterpreted validity predicate as in the contract of utf8.DecodeRuneInString
+	validF := s.declFun("uf_utf8valid", []Sort{arrOf(SInt), SInt, SInt}, SBool)
+	valid := s.define("runevalid", SBool, app(validF, it.S.Arr, add(it.S.Off, i), sub(it.S.Len, i)))
+	k := "rk!0"
+	enc := fmt.Sprintf("(forall ((%s Int)) (! (=> (and (<= 0 %s) (< %s %s)) (= (select %s (+ %s %s %s)) (%s %s %s))) :pattern ((%s %s %s))))", k, k, k, w, it.S.Arr, it.S.Off, i, k, by, r, k, by, r, k)
+	s.usesQuant = true
+	s.assert(implies(ok, and(
+		app("<=", "0", i), app("<=", "0", b0), app("<=", b0, "255"),
+		implies(app("<", b0, "128"), and(eq(r, b0), eq(w, "1"))),
+		implies(app(">=", b0, "128"), or(
+			and(not(valid), eq(r, "65533"), eq(w, "1")),
+			and(valid, app(">=", r, "128"), app("<=", r, "1114111"), not(and(app("<=", "55296", r), app("<=", r, "57343"))),
+				eq(w, app(ln, r)), app("<=", add(i, w), it.S.Len), enc))))))
+	// first and second byte as ground facts (the quantified fact needs a trigger term)
+	s.assert(implies(and(ok, valid, app(">=", b0, "128")), and(eq(b0, app(by, r, "0")), eq(w, app(ln, r)))))
+	fr.lastRuneValid = valid
+	st.heap[rangeLeaf] = s.define("H!"+rangeLeaf, arrOf(SInt), store(arr, it.Cell, app("ite", ok, add(i, w), i)))
+	return TupleV{V: []Val{Sc{ok, SBool}, Sc{i, SInt}, Sc{r, SInt}}}
 }
 
 func isConstLike(v ssa.Value) bool {
@@ -621,6 +682,20 @@ func (fx *fnExec) strConcat(a, b StrV) StrV {
 			}
 		}
 	}
+	if _, ok := fx.constLen(a); !ok {
+		fx.s.assert(fmt.Sprintf("(forall ((cj Int)) (! (=> (and (<= 0 cj) (< cj %s)) (= (select %s cj) (select %s (+ %s cj)))) :pattern ((select %s cj))))", a.Len, arr, a.Arr, a.Off, arr))
+		fx.s.usesQuant = true
+	}
+	if _, ok := fx.constLen(b); !ok {
+		fx.s.assert(fmt.Sprintf("(forall ((cj Int)) (! (=> (and (<= %s cj) (< cj (+ %s %s))) (= (select %s cj) (select %s (+ %s (- cj %s))))) :pattern ((select %s cj))))", a.Len, a.Len, b.Len, arr, b.Arr, b.Off, a.Len, arr))
+		fx.s.usesQuant = true
+	} else if _, aok := fx.constLen(a); !aok {
+		if m, _ := fx.constLen(b); m <= 32 {
+			for k := 0; k < m; k++ {
+				fx.s.assert(eq(sel(arr, add(a.Len, num(int64(k)))), sel(b.Arr, add(b.Off, num(int64(k))))))
+			}
+		}
+	}
 	return StrV{arr, "0", ln}
 }
 
@@ -687,6 +762,9 @@ func (fr *frame) makeInterface(x *ssa.MakeInterface, st *State) Val {
 	fx.s.assert(and(app(">", ref, "1"), eq(app("birth", ref), st.now)))
 	st.now = add1(st.now)
 	fx.boxed[ref] = TV{v, x.X.Type()}
+	if sc, ok := v.(Sc); ok && sc.S == SInt {
+		fx.s.assert(eq(app(fx.s.declFun("boxval", []Sort{SInt}, SInt), ref), sc.T))
+	}
 	return IfV{tag, ref}
 }
 
